@@ -474,7 +474,7 @@ def bv_conv_items(ctx):
     return it + verify(["bv.from_bvf"])
 GROUPS["bv_conv"] = dict(name="bv_conv", features="#![feature(allocator_api)]", prelude=bv_conv_prelude, items=bv_conv_items)
 GROUPS["bv_div"] = G("bv_div", BV_VAL_PRELUDE + ["value_div.rs", "bvf_div.rs", "bvd_div.rs", "cmp_std.rs", "bv_div.rs"],
-    BV_BASE + stub(["bv.len", "bv.zeros", "bv.resize", "bv.set", "bv.is_zero", "bv.significant_bits", "bv.clone", "bv.from_bv", "bv.partial_cmp_bv"]) +
+    BV_BASE + stub(["bv.len", "bv.zeros", "bv.resize", "bv.set", "bv.is_zero", "bv.significant_bits", "bv.leading_zeros", "bv.clone", "bv.from_bv", "bv.partial_cmp_bv"]) +
     [("stub", "bv.shl_assign", {"T": "usize"}), ("stub", "bv.shr_assign", {"T": "u32"}), ("stub", "bv.addsub_bv", ARITH_D["sub"])] + verify(["bv.div_rem_bv"]))
 GROUPS["bv_div"]["features"] = "#![feature(allocator_api)]"
 GROUPS["bvd_conv_self"] = G("bvd_conv_self", BVD_PRELUDE + ["box_clone.rs"], BVD_BASE + stub(BVD_CORE) + verify(["bvd.from_bvd"]))
@@ -714,7 +714,7 @@ _BV_Q = BV_CORE_J + BV_MORE_J + bv_ops_jobs(["u64"], ("or",), BITOPS) + bv_ops_j
 # ... plus the editing / slicing units (normalisation after resize, copy_range, push/pop is where stale storage would appear)
 _EDIT_Q = jobs("bvf_core", ["u64"]) + jobs("bvf_slice", WQ) + [("bvd_core", U64), ("bvd_edit", U64), ("bvd_slice", U64)]
 PROPS["C03"] = {"quick": _ARITH_Q + BVD_ARITH_JOBS + _BITOPS_Q + _BV_Q + _EDIT_Q, "thorough": PROPS["C01"]["thorough"] + PROPS["C04"]["thorough"]}
-PROPS["C20"] = {"quick": _ARITH_Q + BVD_ARITH_JOBS + _BITOPS_Q + bv_ops_jobs(["u64"], ("or",), BITOPS) + bv_ops_jobs(["u64"], ("add", "sub"), ARITH_D) + bv_shift_jobs(["u64"]) + dshift_ref(["usize"]) + [("bvd_misc", U64)] + FORMS_Q, "thorough": PROPS["C01"]["thorough"] + PROPS["C04"]["thorough"] + PROPS["C05"]["thorough"] + FORMS_T}
+PROPS["C20"] = {"quick": _ARITH_Q + BVD_ARITH_JOBS + _BITOPS_Q + bv_ops_jobs(["u64"], ("or",), BITOPS) + bv_ops_jobs(["u64"], ("add", "sub"), ARITH_D) + bv_shift_jobs(["u128"]) + dshift_ref(["u128", "usize"]) + [("bvd_misc", U64)] + FORMS_Q, "thorough": PROPS["C01"]["thorough"] + PROPS["C04"]["thorough"] + PROPS["C05"]["thorough"] + FORMS_T}
 def div_jobs(pairs, ws):
     return ([("div_theory", {"I": "u64"})] + [("bvf_div", pair(i, j)) for (i, j) in pairs] + [("bvf_div_bvd", dctx(i)) for i in ws] + [("bvd_div_bvf", pair("u64", j)) for j in ws] + [("bv_div", U64), ("bvd_div", U64), ("bvd_conv_self", U64)])
 PROPS["C02"] = {"quick": BVD_ARITH_JOBS[1:] + div_jobs(PQ, WQ), "thorough": BVD_ARITH_JOBS + div_jobs(PT, W4)}
